@@ -46,6 +46,7 @@ struct CaseLog {
     FILE* f;
     long nEv, nViol;
     bool verbose;
+    std::string overrideKey;   // when set, every violation is keyed by this diagnosed state instead of its own key
     CaseLog() : f(0), nEv(0), nViol(0), verbose(false) {}
     void open(const std::string& path);
     void line(const char* fmt, ...) __attribute__((format(printf, 2, 3)));
